@@ -25,7 +25,7 @@ const char *STN[] = {"idle", "seg-upload", "seg-download", "blk-download", "blk-
 struct Srv {
   St st = IDLE;
   uint8_t toggle = 0;
-  uint32_t seq = 1; bool seqerr = false;                 // block download
+  uint32_t seq = 1; bool seqerr = false; uint32_t dnblk = 127;   // block download (dnblk: block size the server announced)
   uint32_t total = 0, acked = 0, sent = 0, blksize = 0;  // block upload (segments)
   TObj *obj = nullptr;
   int visited = 0;
@@ -149,12 +149,13 @@ struct C04 {
         x.st = r[0].d[0] == 0x80 ? IDLE : UNTRACKED; return;
       }
       if (!x.seqerr && sq == x.seq) {
-        bool ends = last || sq == 127;
+        bool ends = last || sq == x.dnblk;
         if (ends) {
           CHECK(c, r.size() == 1, "one-response-per-request", "final segment %u of a sub-block: %zu responses", sq, r.size());
           if (r[0].d[0] == 0x80) { x.st = IDLE; return; }
           CHECK(c, r[0].d[0] == 0xA2 && r[0].d[1] == sq, "blk-dl-ackseq", "sub-block of %u segments acknowledged with %s", sq, r[0].str().c_str());
-          x.seq = 1; x.st = last ? BLKDNEND : BLKDN; x.visited = 1;
+          CHECK(c, r[0].d[2] >= 1 && r[0].d[2] <= 127, "blk-dl-ackseq", "acknowledge announces block size %u", r[0].d[2]);
+          x.dnblk = r[0].d[2]; x.seq = 1; x.st = last ? BLKDNEND : BLKDN; x.visited = 1;
         } else {
           if (is_abort(r)) { x.st = IDLE; return; }
           CHECK(c, r.empty(), "no-response-inside-block", "segment %u inside a sub-block was answered with %zu frame(s)", sq, r.size());
@@ -162,11 +163,12 @@ struct C04 {
         }
       } else {
         x.seqerr = true;
-        if (last || sq == 127) {
+        if (last || sq == x.dnblk) {
           CHECK(c, r.size() == 1, "one-response-per-request", "end of a sub-block with a sequence error: %zu responses", r.size());
           if (r[0].d[0] == 0x80) { x.st = IDLE; return; }
           CHECK(c, r[0].d[0] == 0xA2 && r[0].d[1] == x.seq - 1, "blk-dl-ackseq", "sub-block with a sequence error after segment %u acknowledged with %s", x.seq - 1, r[0].str().c_str());
-          x.seq = 1; x.seqerr = false;
+          CHECK(c, r[0].d[2] >= 1 && r[0].d[2] <= 127, "blk-dl-ackseq", "acknowledge announces block size %u", r[0].d[2]);
+          x.dnblk = r[0].d[2]; x.seq = 1; x.seqerr = false;
         } else {
           if (is_abort(r)) { x.st = IDLE; return; }
           CHECK(c, r.empty(), "no-response-inside-block", "out-of-sequence segment inside a sub-block was answered with %zu frame(s)", r.size());
@@ -299,7 +301,7 @@ struct C04 {
         }
         seen(12);
       } else if (canon_seginit) { CHECK(c, r[0].d[0] == 0x60, "valid-request-served", "download initiate answered with %s", r[0].str().c_str()); x.st = SEGDN; x.toggle = 0; x.obj = o; seen(13); }
-      else if (canon_blkdn) { CHECK(c, (r[0].d[0] & 0xFB) == 0xA0 && r[0].d[4] == 127, "valid-request-served", "block download initiate answered with %s", r[0].str().c_str()); x.st = BLKDN; x.seq = 1; x.seqerr = false; x.visited = 0; x.obj = o; seen(14); }
+      else if (canon_blkdn) { CHECK(c, (r[0].d[0] & 0xFB) == 0xA0 && r[0].d[4] >= 1 && r[0].d[4] <= 127, "valid-request-served", "block download initiate answered with %s", r[0].str().c_str()); x.dnblk = r[0].d[4]; x.st = BLKDN; x.seq = 1; x.seqerr = false; x.visited = 0; x.obj = o; seen(14); }
       else {
         std::vector<uint8_t> cont = content(*o);
         CHECK(c, (r[0].d[0] & 0xF9) == 0xC0 && (r[0].d[0] & 2) && r[0].u32(4) == cont.size(), "positive-response-concerns-named-object", "block upload initiate of %04X:%02X (size %zu) answered with %s", idx, sub, cont.size(), r[0].str().c_str());
@@ -423,7 +425,7 @@ void one_case(Ctx &c) {
         if (m.st == BLKDN) {
           uint32_t sq = c.t.chance(215) ? m.seq : 1 + c.t.below(127); bool last = c.t.chance(50);
           if (c.t.chance(30)) { // run to the end of the sub-block
-            for (uint32_t q = m.seq; q <= 127 && m.st == BLKDN; q++) { f = x.mk(n, (uint8_t)q, 0, 0, 0); for (int i = 1; i < 8; i++) f.d[i] = (uint8_t)(q + i); x.request(n, f, "block segment (run)"); }
+            for (uint32_t q = m.seq; q <= m.dnblk && m.st == BLKDN; q++) { f = x.mk(n, (uint8_t)q, 0, 0, 0); for (int i = 1; i < 8; i++) f.d[i] = (uint8_t)(q + i); x.request(n, f, "block segment (run)"); }
             break;
           }
           f = x.mk(n, (uint8_t)((sq & 0x7F) | (last ? 0x80 : 0)), 0, 0, 0); for (int i = 1; i < 8; i++) f.d[i] = c.t.byte();
